@@ -12,6 +12,7 @@ The same text runs in two modes:
     `ensure` evaluates to a bool.  Used for replaying counter-models, for the CPython
     cross-check of the executor, and for the bounded run-time checks.
 """
+import ast
 import hashlib
 import inspect
 import os
@@ -233,6 +234,47 @@ class SymCase:
 
     def view_fields(self, s, shape):
         return view_fields(s, shape, self)
+
+    def run_region(self, fn, first, last, locals_, stmt_hooks=None, raises=()):
+        """Execute the statements of fn's body from the first one matching `first(stmt)` to the
+        first later one matching `last(stmt)` (both predicates over ast nodes) in a frame with the
+        given locals.  Returns the frame's locals, or Raised.  Anchors that do not match uniquely
+        make the obligation inapplicable (undecided), never a violation."""
+        fn = getattr(fn, "__func__", fn)
+        node = function_ast(fn)
+        body = node.body
+        a = [i for i, st in enumerate(body) if first(st)]
+        if len(a) != 1:
+            raise Inapplicable(f"region start anchor matches {len(a)} statements of {fn.__qualname__}")
+        b = [i for i, st in enumerate(body) if i >= a[0] and last(st)]
+        if not b:
+            raise Inapplicable(f"region end anchor does not match in {fn.__qualname__}")
+        from .interp import Frame, _Return
+        q = f"{fn.__module__}:{fn.__qualname__}"
+        frame = Frame(fn.__globals__, None, q, node)
+        frame.locals.update(locals_)
+        if stmt_hooks:
+            for pred, hook in stmt_hooks:
+                for st in ast.walk(node):
+                    if isinstance(st, ast.stmt) and pred(st):
+                        self.interp.stmt_hooks[(q, st.lineno)] = hook
+        self.interp._loop_counters.append(0)
+        try:
+            self.interp.block(body[a[0]:b[0] + 1], frame)
+        except (PathEnd, Inapplicable):
+            raise
+        except _Return as r:
+            frame.locals["__return__"] = r.v
+        except raises as e:
+            return Raised(e)
+        except Exception as e:
+            self.p.ghost["exception"] = f"{type(e).__name__}: {e}"
+            vc = self.p.require("no_exception", False, kind="exc")
+            vc.note = "raised " + self.p.ghost["exception"]
+            raise PathEnd("unexpected exception")
+        finally:
+            self.interp._loop_counters.pop()
+        return frame.locals
 
 
 # ------------------------------------------------------------------------------- concrete mode
